@@ -48,8 +48,15 @@ def gen_prog(rng):
             a = rng.choice([1, 1, 2, 3])
             p = ("un", ("slice", a, rng.choice([None, None, a + 1, a + 4])), mp.DEFAULT, p)
         elif r < 0.3:
-            p = ("un", ("sel", rng.choice([("plit", False), ("and", [("plit", False)]), ("not", ("plit", True)),
-                                           ("and", [gen.gen_pred(rng, cur, 1), ("plit", False)])])), mp.DEFAULT, p)
+            choices = [("plit", False), ("and", [("plit", False)]), ("not", ("plit", True)),
+                       ("and", [gen.gen_pred(rng, cur, 1), ("plit", False)])]
+            if cur:
+                # memberships in ranges / sequences that are empty, ascending, descending, one element
+                c = rng.choice(sorted(cur))
+                choices += [("in", ("ref", c), ("range", a, b, st)) for a, b, st in
+                            [(0, 3, 1), (3, 0, -1), (5, 0, -2), (2, 2, 1), (4, 1, 1), (0, 5, -1), (1, 2, 3)]]
+                choices += [("in", ("ref", c), ("seq", [])), ("in", ("ref", c), ("seq", [("lit", 1), ("lit", 2)]))]
+            p = ("un", ("sel", rng.choice(choices)), mp.DEFAULT, p)
         elif r < 0.45:
             other = leaf(sorted(cur))
             p = ("chain", p, other) if rng.random() < 0.5 else ("chain", other, p)
